@@ -155,6 +155,8 @@ def fiber_types():
         {'type_variety': 'LOF', 'dispersion': 2.2e-05, 'gamma': 0.0008, 'pmd_coef': 0.5e-15},
         {'type_variety': 'SLOPE', 'dispersion': 1.67e-05, 'dispersion_slope': 59.0, 'effective_area': 83e-12,
          'pmd_coef': 1.0e-15},
+        # negative (normal) dispersion fibre: accumulated CD decreases along it
+        {'type_variety': 'NDF', 'dispersion': -0.8e-05, 'effective_area': 55e-12, 'pmd_coef': 1.0e-15},
     ]
 
 
@@ -193,6 +195,11 @@ def si_entry(draw, band=(191.3e12, 196.1e12), name=None, power=None, tx_power=No
         e['tx_power_dbm'] = t
     if draw(st.integers(0, 4)) == 0:
         e['use_si_channel_count_for_design'] = True
+    if draw(st.integers(0, 3)) == 0:
+        # frequencies written as JSON integers (191300000000000 instead of 191.3e12): the same values
+        for k in ('f_min', 'f_max', 'spacing', 'baud_rate'):
+            if float(e[k]).is_integer():
+                e[k] = int(e[k])
     return e
 
 
@@ -400,7 +407,7 @@ def fiber_params(draw, length_km=None, lumped=True, per_freq_loss=True, connecto
     if dispersion_slope is not None:
         # element-level dispersion slope (s/m^3): chromatic dispersion differs from channel to channel
         p['dispersion_slope'] = dispersion_slope
-    v = variety or draw(st.sampled_from(['SSMF', 'SSMF', 'NZDF', 'LOF', 'SLOPE']))
+    v = variety or draw(st.sampled_from(['SSMF', 'SSMF', 'NZDF', 'LOF', 'SLOPE', 'NDF']))
     return v, p
 
 
